@@ -150,6 +150,13 @@ CHPointProp CHPointProp::fromStream(std::istream &input, std::ostream &err)
                 parseValue(input, prop.qp, err);
                 continue;
             }
+
+            if( token == "<pointname>" )
+            {
+                expectChar(input, '=', err);
+                parseString(input, &prop.PointName, err);
+                continue;
+            }
             if (token != "<endpoint>")
                 err << "CHPointProp: unexpected token: "<<token << "\n";
         }
@@ -161,6 +168,7 @@ CHPointProp CHPointProp::fromStream(std::istream &input, std::ostream &err)
 void CHPointProp::toStream(std::ostream &out) const
 {
     out << "  <BeginPoint>\n";
+    out << "    <PointName> = \"" << PointName << "\"\n";
     out << "    <Tp> = " << V << "\n";
     out << "    <qp> = " << qp << "\n";
     out << "  <EndPoint>\n";
